@@ -64,7 +64,10 @@ varintWidth varintPFORComputeThreshold(const uint64_t *values, uint32_t count,
 
     /* Find min and threshold percentile */
     uint64_t min = sorted[0];
-    uint32_t thresholdIndex = (count * threshold) / 100;
+    /* 64-bit product: count * threshold wraps in 32 bits above ~45 million
+     * elements, which moved the percentile to the front of the array and made
+     * almost every value an exception */
+    uint32_t thresholdIndex = (uint32_t)(((uint64_t)count * threshold) / 100);
     if (thresholdIndex >= count) {
         thresholdIndex = count - 1;
     }
